@@ -27,7 +27,7 @@ variable {F : Type} [Num F]
 set_option linter.unusedSectionVars false
 
 /-- equal up to letter case (as the calculator compares words: `to_lowercase`) -/
-def CaseEq (a b : String) : Prop := a.toLower = b.toLower
+def CaseEq (a b : String) : Prop := lowerStr a = lowerStr b
 
 theorem lowerEq_congr_left (a a' b : String) (h : CaseEq a a') : lowerEq b a = lowerEq b a' := by
   unfold lowerEq CaseEq at *
@@ -266,7 +266,7 @@ theorem findLocation_case (toks toks' : List (TokInfo F)) (name : List (Tok F)) 
     simp only [findLocation]
     rw [matchesAt_case (x :: xs) (y :: ys) name (.cons hxy t), ih]
 
-theorem toLower_case_tokToString (a b : Tok F) (h : TokSim a b) : (tokToString a).toLower = (tokToString b).toLower := by
+theorem toLower_case_tokToString (a b : Tok F) (h : TokSim a b) : lowerStr (tokToString a) = lowerStr (tokToString b) := by
   cases h with
   | refl => rfl
   | text s s' hss => exact hss
